@@ -168,6 +168,57 @@ def l2_exact_parts(ctx: Ctx):
         ctx.check(good and len(assigned) == 1 and assigned[0] == ret_names[-1], EFT, f, name, 'the error term is the one assigned inside `with fp.REAL`', f'assigned {assigned}, returned {ret_names}')
 
 
+def l4_exact_engine_answers(ctx: Ctx):
+    """The error terms of the ideal variants are sums, differences, products and fused products evaluated under REAL, where
+    only the exact engine answers.  It has to answer for every pair of operands: a `return None` (decline) in one of those
+    methods -- other than handing on the `None` of another of them -- is an input on which the ideal variant raises
+    NotImplementedError although the rounded result is finite."""
+    repo = ctx.repo
+    REAL_ENGINE = 'fpy2/number/engine/real.py'
+    efuncs = {name: fn for name, fn, kind in fpy_functions(repo, EFT)}
+    used: set[str] = set()
+    for name in ('ideal_2sum', 'ideal_2mul', 'ideal_fma'):
+        f = efuncs.get(name)
+        if f is None:
+            raise ShapeError(f'{name} missing')
+        for w in (s_ for s_ in f.body if isinstance(s_, ast.With)):
+            for n_ in ast.walk(w):
+                if isinstance(n_, ast.BinOp):
+                    used.add({ast.Add: 'add', ast.Sub: 'sub', ast.Mult: 'mul', ast.Div: 'div'}.get(type(n_.op), '?'))
+                elif isinstance(n_, ast.Call):
+                    used.add((call_name(n_) or '').split('.')[-1])
+    if not {'add', 'sub', 'mul', 'fma'} <= used:
+        raise ShapeError(f'operations under REAL in the ideal variants: {sorted(used)}')
+    meths = {n: f for n, (_, _, f) in repo.methods(REAL_ENGINE, 'RealEngine', inherited=False).items()}
+    todo, closure = sorted(used & set(meths)), set()
+    while todo:
+        m = todo.pop()
+        if m in closure:
+            continue
+        closure.add(m)
+        todo += [call_name(k).split('.')[1] for k in calls_in(meths[m]) if (call_name(k) or '').startswith('self.') and call_name(k).split('.')[1] in meths]
+    for m in sorted(closure):
+        fn = meths[m]
+        parents = {c: p for p in ast.walk(fn) for c in ast.iter_child_nodes(p)}
+        handed = {}
+        for s_ in ast.walk(fn):
+            if isinstance(s_, ast.Assign) and isinstance(s_.value, ast.Call) and (call_name(s_.value) or '').startswith('self.') and isinstance(s_.targets[0], ast.Name):
+                handed[s_.targets[0].id] = call_name(s_.value).split('.')[1]
+        declines = [r for r in ast.walk(fn) if isinstance(r, ast.Return) and (r.value is None or (isinstance(r.value, ast.Constant) and r.value.value is None))]
+        bad = None
+        for r in declines:
+            p = parents.get(r)
+            ok = isinstance(p, ast.If) and r in p.body and isinstance(p.test, ast.Compare) and isinstance(p.test.left, ast.Name) and p.test.left.id in handed \
+                and handed[p.test.left.id] in closure and len(p.test.ops) == 1 and isinstance(p.test.ops[0], ast.Is) and norm(p.test.comparators[0]) == 'None'
+            if not ok and bad is None:
+                bad = r
+        ctx.check(bad is None, REAL_ENGINE, bad or fn, f'RealEngine.{m}', f'RealEngine.{m} answers every operand (it declines only by handing on another exact operation\'s answer)',
+                  'the exact engine declines some operands: under REAL no other engine answers, so ideal_2sum / ideal_2mul / ideal_fma raise NotImplementedError for them '
+                  '(e.g. ideal_2sum(2**100000, 2**-100000) under a 237-digit context, whose rounded sum is finite)')
+    if len(closure) < 5:
+        raise ShapeError(f'exact-engine closure is {sorted(closure)}')
+
+
 INTROSPECTING = {'max_p', 'min_n'}
 
 
@@ -262,12 +313,17 @@ RULES = [
     Rule('C20.L1', 'operation DAG of each error-free transformation equals the published algorithm', l1_operation_dags, 22, 'L'),
     Rule('C20.L2', 'exact parts are computed under REAL (ideal_*, ldexp)', l2_exact_parts, 5, 'L'),
     Rule('C20.L3', 'context-introspecting primitives are not called under a literal INTEGER/REAL scope', l3_introspection_scope, 30, 'L'),
+    Rule('C20.L4', 'the exact engine answers add / sub / mul / fma / neg for every operand (what the ideal variants evaluate under REAL)', l4_exact_engine_answers, 5, 'L'),
     Rule('C20.P1', 'split / modf / frexp return only exactly rounded parts', p1_exact_returns, 20, 'P'),
 ]
 
 from ..selftest import Mutant  # noqa: E402
 
 MUTANTS = [
+    Mutant('exact-sum-declines-distant-operands', 'fpy2/number/engine/real.py', "                case Float(), Float():\n                    r = x.as_real() + y.as_real()\n                    return Float(x=r, ctx=REAL)",
+           "                case Float(), Float():\n                    xr, yr = x.as_real(), y.as_real()\n                    if xr.is_nonzero() and yr.is_nonzero() and abs(xr.e - yr.e) > 65536:\n                        return None\n                    return Float(x=xr + yr, ctx=REAL)", 'C20.L4',
+           'seeded change C20d: ideal_2sum(2**100000, 2**-100000) under FP256 raises'),
+    Mutant('exact-product-declines-fractions', 'fpy2/number/engine/real.py', "    def mul(self, x: EngineArg, y: EngineArg, ctx: Context) -> EngineRes:\n", "    def mul(self, x: EngineArg, y: EngineArg, ctx: Context) -> EngineRes:\n        if isinstance(x, Fraction) and isinstance(y, Fraction):\n            return None\n", 'C20.L4'),
     Mutant('2sum-virtual-operand', EFT, "    bb = s - aa\n", "    bb = s - a\n", 'C20.L1', 'the defect repaired by the fix: commit'),
     Mutant('fast2sum-operands-swapped', EFT, "    z = s - a\n    t = b - z", "    z = s - b\n    t = b - z", 'C20.L1'),
     Mutant('veltkamp-constant', EFT, "    C = fp.pow(fp.round(2), s) + fp.round(1)", "    C = fp.pow(fp.round(2), s) - fp.round(1)", 'C20.L1'),
